@@ -469,7 +469,12 @@ def main_check(pid, tier, seed):
         gen_info = prop.regenerate(REPO, os.path.join(COQ, 'theories', 'Generated'))
 
     # 3. proof obligations
-    proofs = check_proofs(pid, wd, getattr(prop, 'EXTRA_COQ_TARGETS', ()))
+    # (the model files the generated case files import are built too: they need not be in the closure of Properties/Cxx.vo)
+    import_targets = ['theories/%s.vo' % m.replace('.', '/')
+                      for line in re.findall(r'From VRP Require Import ([^\n]*?)\.\s*(?:\n|$)', prop.COQ_IMPORTS + '\n')
+                      for m in line.split()]
+    proofs = check_proofs(pid, wd, sorted(set(list(getattr(prop, 'EXTRA_COQ_TARGETS', ())) +
+                                               list(getattr(prop, 'MODEL_TARGETS', ())) + import_targets)))
     log('[%s] proofs: %d/%d discharged (make %.1fs)' % (pid, proofs['discharged'], proofs['obligations'], proofs.get('make_s', 0)))
     model_ok = True
     if not proofs['ok']:
@@ -605,6 +610,9 @@ def main_setup():
     for mod in mods:
         targets.append('theories/Properties/%s.vo' % mod.ID)
         targets += list(getattr(mod, 'MODEL_TARGETS', ())) + list(getattr(mod, 'EXTRA_COQ_TARGETS', ()))
+        targets += ['theories/%s.vo' % m.replace('.', '/')
+                    for line in re.findall(r'From VRP Require Import ([^\n]*?)\.\s*(?:\n|$)', mod.COQ_IMPORTS + '\n')
+                    for m in line.split()]
     rc, out = coq_make(sorted(set(targets)), timeout=3000)
     if rc != 0:
         print(out[-5000:])
